@@ -1,7 +1,7 @@
 (* Shared engine cases: the model evaluated on what the real code ran on, and the property
    predicates (C01 C04 C06 C07 C13 C20) evaluated on what the real code returned. *)
 From Coq Require Import List String ZArith NArith Bool Floats.
-From WTF Require Import Model.Validate Model.Text Model.Platform Model.Engine Check.Render Check.EngineTypes.
+From WTF Require Import Model.Tfidf Model.Validate Model.Text Model.Platform Model.Engine Check.Render Check.EngineTypes.
 Import ListNotations.
 Open Scope string_scope.
 
@@ -14,7 +14,8 @@ Record ecase := {
   k_extra : list (string * list eres);
   k_recased : bytes;
   k_nlp_keywords : list bytes;        (* ProcessQuery(...).Keywords: the keywords extracted from the user's own text *)
-  k_nlp_sig : list bytes; k_nlp_sig2 : list bytes   (* the whole analysis, flattened, from two analyses of the same text *)
+  k_nlp_sig : list bytes; k_nlp_sig2 : list bytes;  (* the whole analysis, flattened, from two analyses of the same text *)
+  k_doc_toks : list (list bytes); k_q_toks : list bytes; k_logt : list float   (* inputs of the TF-IDF model *)
 }.
 
 Definition env_of (c : ecase) : env :=
@@ -34,13 +35,34 @@ Definition with_opts (o : options) (limit : option Z) (fuzzy nlp : option bool) 
      o_nlp := match nlp with Some b => b | None => o_nlp o end;
      o_terms_cap := o_terms_cap o; o_all_platforms := o_all_platforms o; o_platforms := o_platforms o; o_no_cross := o_no_cross o |}.
 
+(* the NLP information the engine model runs on: per-document multipliers and the analysis come from the code (oracles),
+   the TF-IDF ranking is COMPUTED by Model/Tfidf.v from the tokenizer's output (it is compared with the code's in tfidf_agrees) *)
+Definition model_nlp (c : ecase) : nlp_info :=
+  let n := k_nlp c in
+  {| n_actions := n_actions n; n_targets := n_targets n; n_enhanced := n_enhanced n; n_intent_boost := n_intent_boost n;
+     n_cooccur := n_cooccur n; n_cascade := n_cascade n;
+     n_tfidf := match k_cmds c with
+                | [] => None
+                | _ => Some (to_eres (tfidf_search (k_doc_toks c) (k_logt c) (k_q_toks c) (Z.of_nat (List.length (k_cmds c)) + 1)))
+                end |}.
+
 Definition model (c : ecase) (o : options) : list eres :=
-  to_eres (search_universal (env_of c) (k_cmds c) (k_q c) o (Some (k_nlp c))).
+  to_eres (search_universal (env_of c) (k_cmds c) (k_q c) o (Some (model_nlp c))).
 
 Definition big (c : ecase) : Z := (Z.of_nat (List.length (k_cmds c)) + 5)%Z.
 
+(* the TF-IDF ranking the code computed for this query over the database it holds, against Model/Tfidf.v *)
+Definition tfidf_agrees (c : ecase) : bool :=
+  match n_tfidf (k_nlp c) with
+  | None => match k_cmds c with [] => true | _ => false end
+  | Some ranking =>
+      results_eqb ranking
+        (to_eres (tfidf_search (k_doc_toks c) (k_logt c) (k_q_toks c) (Z.of_nat (List.length (k_cmds c)) + 1)))
+  end.
+
 (* model vs. implementation on the main run and on every paired run *)
 Definition mismatch (c : ecase) : option string :=
+  if negb (tfidf_agrees c) then Some "tfidf" else
   let o := k_opts c in
   let chk (name : string) (oo : options) (obs : option (list eres)) :=
       match obs with
